@@ -6,8 +6,9 @@
   `c03_settlement_payout` of C03Sums.lean and `c04_payout` of C04Sums.lean) and the wager (`c03_charge_at_placement`).
   In the combined model (`Sge.Combined`)
     * a non-halting combined end-block is the SUCCESSFUL core end-block on the core component followed by the
-      x/subaccount hooks (`cms_endBlock_decomp`); the hooks change nothing of the core component but balances, and only
-      by AfterHouseWin transfers subaccount address → owner (`cms_applyHooks_core`, closed form `cms_hookMove`);
+      x/subaccount hooks (`cms_endBlock_decomp`); the hooks move coins only by AfterHouseWin transfers subaccount
+      address → owner (`applyHook`, `cml_applyHook_spec`); their net effect per account is NOT stated in closed form
+      here, the theorems below speak about the core component BEFORE the hooks run;
     * a successful MsgWager of x/subaccount is: transfer subaccount address → owner, the REAL core wager with the OWNER
       as bettor, transfer of what was not taken owner → subaccount address (`c03_charge_at_placement_subWager`).
   The core component of every reachable combined state is a reachable core state (`cml_transfer`, `cml_run_trace`), so
@@ -51,7 +52,8 @@ theorem cms_endBlock_decomp (s : State) (hnh : (step s (.core .endBlock)).2 ≠ 
     from `s` that does not halt, the core end-block inside it does not halt, and BEFORE the x/subaccount hooks run —
     `c'` is the core component after the core end-block — the balance of EVERY account `a` (user, owner, subaccount
     address or custody account) has changed by exactly the sum of its shares in the bets settled by this block plus its
-    shares in the participations paid by this block. What the hooks move afterwards: `c04_block_balance_hooks_combined`. -/
+    shares in the participations paid by this block. The hooks that run afterwards only transfer
+    subaccount address → owner (AfterHouseWin); their sum is not part of this statement. -/
 theorem c04_block_balance_combined (p : Params) (bal : List (Nat × Int)) (h t : Nat) (we de : Bool) (ops : List Op)
     (h0 : getBal bal ACC_POOL = 0 ∧ getBal bal ACC_BETFEE = 0 ∧ getBal bal ACC_HOUSEFEE = 0)
     (hwf : ∀ op ∈ ops, op.wf) :
@@ -219,7 +221,7 @@ def cms_Payout (s : Core.State) (op : Core.Op) : Prop :=
     unpaid in `c` and paid after `op`, then `op` is the end-block and the ONE `settleParticipation` call that paid it
     moved exactly: pool → depositor liquidity + Σ lost stakes − Σ won profits of the parts naming it (declared) or the
     liquidity (cancelled / aborted); house-fee collector → depositor or market creator the fee; nothing else. These
-    are the payments BEFORE the hooks; AfterHouseWin then forwards the profit subaccount address → owner (`cms_hookMove`). -/
+    are the payments BEFORE the hooks; AfterHouseWin then forwards the profit subaccount address → owner (`applyHook`). -/
 theorem c04_payout_combined (p : Params) (bal : List (Nat × Int)) (h t : Nat) (we de : Bool) (ops : List Op)
     (h0 : getBal bal ACC_POOL = 0 ∧ getBal bal ACC_BETFEE = 0 ∧ getBal bal ACC_HOUSEFEE = 0)
     (hwf : ∀ op ∈ ops, op.wf) (op : Core.Op) (hop : op.userSigned') :
@@ -323,5 +325,29 @@ theorem c03_charge_at_placement_subWager (p : Params) (bal : List (Nat × Int)) 
         exact q12 acct
       · intro hfee
         exact q13 hfee
+
+-- ---------------------------------------------------------------------------------------------
+-- non-vacuity: `cml_exOps` of CoreCombined.lean = `sampleOps` (market, subaccount, subaccount house deposit, subaccount
+-- wager of owner 2, resolution) followed by one end-block
+
+/-- the hypotheses hold of that history: `Op.wf`, empty custody accounts, the combined end-block after `sampleOps` does
+    not halt, the subaccount wager (4th operation) is accepted in the state after the first three; and the theorems
+    give non-trivial facts: the core end-block inside pays the owner 2 (bettor of the subaccount wager, which won). -/
+example :
+    let s := run sampleInit sampleOps
+    cml_exOps = sampleOps ++ [Op.core Core.Op.endBlock] ∧
+    (∀ op ∈ sampleOps, op.wf) ∧
+    (getBal sampleInit.core.bal ACC_POOL = 0 ∧ getBal sampleInit.core.bal ACC_BETFEE = 0 ∧ getBal sampleInit.core.bal ACC_HOUSEFEE = 0) ∧
+    (step s (.core .endBlock)).2 ≠ .halt ∧
+    (subWagerO (run sampleInit (sampleOps.take 3)) 2 true 2 500000 1500000 sampleTk 77 2000000 samplePl).isSome = true ∧
+    (Core.step s.core .endBlock).2 ≠ .halt ∧
+    getBal (Core.step s.core .endBlock).1.bal 2 - getBal s.core.bal 2 = 3999800 := by
+  intro s
+  have hwf : ∀ op ∈ sampleOps, op.wf := fun op hop =>
+    Op.wfU_wf (cmb2_wfUb_all (ops := cml_exOps) (by decide +kernel) op (List.mem_append_left _ hop))
+  have hnh : (step s (.core .endBlock)).2 ≠ .halt := by decide +kernel
+  refine ⟨rfl, hwf, by decide, hnh, by decide +kernel, ?_, by decide +kernel⟩
+  exact (c04_block_balance_combined {} [(7, 100000000), (2, 100000000), (9, 0)] 1 100 true true sampleOps
+    (by decide) hwf hnh).1
 
 end Sge.Combined
